@@ -171,7 +171,7 @@ pub fn pw_from_bytes(u: &mut Unstructured, max_len: usize) -> Option<PwSpec> {
     let n = 1 + (u.arbitrary::<u8>().ok()? as usize) % max_len;
     // lattice: either one of the fixed ones or values decoded from the input
     let mut custom = Vec::new();
-    if lat_kind % 9 == 8 {
+    if lat_kind % 10 == 9 {
         let m = 1 + (u.arbitrary::<u8>().ok()? as usize) % 8;
         for _ in 0..m {
             custom.push(fuzz_f64(u)?);
